@@ -52,7 +52,11 @@ type seqCase struct {
 }
 
 func newSeqCase(t stats.TB, part string, feedMode bool) *seqCase {
-	c := &seqCase{t: t, part: part, e: newEnv(feedMode), labels: map[string]bool{}, asyncRemoved: map[common.Hash]bool{}}
+	return newSeqCaseJ(t, part, feedMode, false)
+}
+
+func newSeqCaseJ(t stats.TB, part string, feedMode, journal bool) *seqCase {
+	c := &seqCase{t: t, part: part, e: newEnvJ(feedMode, journal), labels: map[string]bool{}, asyncRemoved: map[common.Hash]bool{}}
 	c.settle("init")
 	return c
 }
@@ -301,6 +305,13 @@ func (c *seqCase) step(o op) {
 						}
 					}
 				}
+			}
+		}
+	case "restart":
+		c.labels["restart"] = true
+		for h := range pre.AllLocals {
+			if inAll(post, h) {
+				c.labels["local_tx_survived_restart"] = true
 			}
 		}
 	case "setPrice":
@@ -632,13 +643,21 @@ func TestC19_Random(t *testing.T) {
 	const part = "random"
 	rapid.Check(t, func(rt *rapid.T) {
 		feed := rapid.IntRange(0, 3).Draw(rt, "feedMode") == 0
-		c := newSeqCase(rt, part, feed)
+		journal := rapid.IntRange(0, 2).Draw(rt, "journal") == 0
+		c := newSeqCaseJ(rt, part, feed, journal)
 		n := rapid.SampledFrom([]int{6, 10, 15, 20, 25, 30, 35, 40, stats.Scale(40, 50), stats.Scale(40, 60)}).Draw(rt, "len")
 		for i := 0; i < n; i++ {
+			if journal && rapid.IntRange(0, 24).Draw(rt, "restart?") == 0 {
+				c.step(op{K: "restart"})
+				continue
+			}
 			c.step(genOp(rt, c.e.chain.Head()))
 		}
 		if feed {
 			c.labels["mode_feed"] = true
+		}
+		if journal {
+			c.labels["mode_journal"] = true
 		}
 		// distinct by op-kind sequence rather than by every parameter
 		var kinds []string
@@ -779,8 +798,12 @@ func TestC19_Concurrent(t *testing.T) {
 			yields[w] = append(yields[w], rapid.IntRange(0, 3).Draw(rt, "yield"))
 			kinds[o.K]++
 		}
-		e := newEnv(true)
+		journal := rapid.IntRange(0, 2).Draw(rt, "journal") == 0
+		e := newEnvJ(true, journal)
 		labels := map[string]bool{}
+		if journal {
+			labels["mode_journal"] = true
+		}
 		old := runtime.GOMAXPROCS(procs)
 		results := make([]workerResult, workers)
 		var wg sync.WaitGroup
